@@ -537,6 +537,8 @@ fn handle_a2ml(
 
             // trim off trailing whitespace up to and including the last newline - this newline and the
             // following indentation will be written together with /end A2ML
+            // (if the input ends inside the A2ML block, bytepos may have run past the end of the data)
+            bytepos = bytepos.min(datalen);
             while filebytes[bytepos - 1].is_ascii_whitespace()
                 && filebytes[bytepos - 1] != b'\r'
                 && filebytes[bytepos - 1] != b'\n'
